@@ -527,3 +527,26 @@ Fixpoint hrun_bypass (c : cfg) (cap : nat) (x : state * list seg) (evs : list he
   | [] => Some x
   | e :: rest => match hstep_bypass c cap x e with Some x' => hrun_bypass c cap x' rest | None => None end
   end.
+
+(* ---- the sender's send queue: writeChunk keeps one slot free for the close request ----
+   pkg/protocol/session.go writeChunk: a Write of n >= 1 fragments waits while sendQueue.Remaining() <= n, then inserts its
+   n segments; the output loop removes segments; closeWithError inserts the close request with sendQueue.Insert, which
+   fails exactly when no slot is free - and then the close request is written directly and the queue discarded (the
+   fallback of CForce).  State = number of queued segments; the capacity is segmentTreeCapacity. *)
+Inductive qev := QWrite (n : N) | QDrain (k : N).
+
+(* [strict] = the admission test of the code (Remaining > n); [strict = false] = the test Remaining >= n *)
+Definition q_admits (strict : bool) (cap q n : N) : bool :=
+  if strict then n <? cap - q else n <=? cap - q.
+
+(* a Write that is not admitted waits (the state does not change: it is retried after a drain) *)
+Definition q_step (strict : bool) (cap q : N) (e : qev) : N :=
+  match e with
+  | QWrite n => if (1 <=? n) && q_admits strict cap q n then q + n else q
+  | QDrain k => q - k
+  end.
+
+Definition q_run (strict : bool) (cap : N) (evs : list qev) : N := fold_left (q_step strict cap) evs 0.
+
+(* closeWithError's sendQueue.Insert(close request) succeeds *)
+Definition q_close_queued (cap q : N) : bool := q <? cap.
